@@ -499,6 +499,11 @@ def _binding_arms(arms):
     return True
 
 
+def _guarded_or_else(arms):
+    """`P(x) if g(x) => a, _ => b`"""
+    return len(arms) == 2 and bool(arms[0].get("guard")) and not arms[1].get("guard") and _catch_all(arms[1]["pat"])
+
+
 def _literal_match(arms):
     """<= 3 arms, each a string/char/bool/int literal (or an or-pattern of them) except a final wildcard / binding: reads as an
     if / else-if chain of equality tests. Larger matches are tables and stay opaque."""
@@ -578,6 +583,29 @@ class NF:
         self.consts = consts or {}
         self._clos = _CLOSURES   # id -> (closure node, environment at its definition): closures bound to locals are applied at their calls
 
+    def _const_literal(self, path):
+        """a named constant of the crate whose value is one literal (`const PREFIX: &str = "mod_";`, a char, a number, a bool) is that
+        literal: naming a value does not change it"""
+        if not hasattr(self, "_const_lits"):
+            self._const_lits = {}
+        if path in self._const_lits:
+            return self._const_lits[path]
+        self._const_lits[path] = None
+        b = self.F.lib.body(path) if hasattr(self.F, "lib") else None
+        if b is None and hasattr(self.F, "lib") and path.startswith("zeep_lib::"):
+            b = self.F.lib.body(path[len("zeep_lib::"):])
+        if b is not None and b.get("hir") is not None and str(b.get("kind", "")).startswith("Const"):
+            try:
+                v = H.strip(H.norm_body(b)["value"])
+            except Unrecognised:
+                v = {}
+            while v.get("k") == "Block" and not v["b"]["stmts"] and v["b"].get("tail"):
+                v = H.strip(v["b"]["tail"])
+            if v.get("k") == "Lit" and v.get("lit") in ("str", "char", "int", "bool") and "v" in v \
+                    and not (isinstance(v["v"], str) and (len(v["v"]) > 120 or "\n" in v["v"])):      # (not the text of a whole file)
+                self._const_lits[path] = ("lit", v["v"])
+        return self._const_lits[path]
+
     def nf(self, e, env):
         if e is None:
             return ("unknown", "none")
@@ -589,7 +617,8 @@ class NF:
                 return v if v is not None else ("local", e.get("name", "?"))
             if e.get("res") == "def":
                 if e.get("dk", "").startswith(("Const", "AssocConst", "Static")):
-                    return ("const", e["path"])
+                    lit = self._const_literal(e["path"])
+                    return lit if lit is not None else ("const", e["path"])
                 return ("const", e.get("path", "?"))
             return ("unknown", str(e.get("res")))
         if k == "Field":
@@ -1142,7 +1171,9 @@ class NF:
                 return ("call", "iter::" + name, (recv, body))
             if name in ("map", "and_then"):
                 carrier = "Ok" if "result::Result" in (e.get("path") or "") else "Some"
-                return ("map", recv, self.closure_apply(args[0], [("payload", carrier, recv)], env))
+                body = self.closure_apply(args[0], [("payload", carrier, recv)], env)
+                # (`and_then`'s closure yields an Option / Result itself: marked, so that nobody takes its value for the payload)
+                return ("map", recv, body) if name == "map" else ("map", recv, body, "flat")
             if name in ("is_some_and",):
                 return ("call", "is_some_and", (recv, self.closure_apply(args[0], [("payload", "Some", recv)], env)))
             if name in ("filter",):
@@ -1190,6 +1221,17 @@ def _conjuncts(cond):
             and cond[2][0] == "call" and cond[2][1] == "Option::filter" and len(cond[2][2]) == 2:
         inner = ("islet", cond[1], cond[2][2][0])
         return _conjuncts(inner) + (("alt", nf_simplify(cond[2][2][1]), True),)
+    if isinstance(cond, tuple) and cond[0] == "islet" and str(cond[1]).startswith("Some(") and isinstance(cond[2], tuple) and cond[2][0] == "ifelse":
+        # `if c { None } else { opt }` is Some: c does not hold and `opt` is Some (and the other way round)
+        c_, a_, b_ = cond[2][1], cond[2][2], cond[2][3]
+        is_none = lambda v: isinstance(v, tuple) and ((v[0] == "const" and str(v[1]).rsplit("::", 1)[-1] == "None") or v == ("lit", None))
+        if is_none(a_) and not is_none(b_):
+            return (("alt", c_, False),) + _conjuncts(("islet", cond[1], b_))
+        if is_none(b_) and not is_none(a_):
+            return (("alt", c_, True),) + _conjuncts(("islet", cond[1], a_))
+    if isinstance(cond, tuple) and cond[0] == "islet" and str(cond[1]).startswith("Some(") and isinstance(cond[2], tuple) \
+            and cond[2][0] == "call" and cond[2][1] == "Some" and len(cond[2][2]) == 1:
+        return ()      # `Some(x)` is Some
     return (("alt", cond, True),)
 
 
@@ -1986,7 +2028,7 @@ class Extractor:
                     continue
                 if some is not None:
                     # `match opt { Some(x) => .., None => .. }` reads as `if let Some(x) = opt { .. } else { .. }`
-                    alts = (("alt", ("islet", labels[some], scrut), i == some),)
+                    alts = _conjuncts(("islet", labels[some], scrut)) if i == some else (("alt", ("islet", labels[some], scrut), False),)
                 elif _catch_all(a["pat"]) and not a.get("guard"):
                     # `_ => ..` / `other => ..`: taken when none of the earlier patterns matched
                     alts = tuple(("alt", ("islet", labels[j], scrut), False) for j in range(i) if not e["arms"][j].get("guard"))
@@ -2421,7 +2463,7 @@ def nf_simplify(n):
             b_ = nf_simplify(("match", sc[3], n[2]))
             if a_[0] != "match" and b_[0] != "match":
                 return ("ifelse", sc[1], a_, b_)
-    if n and n[0] == "map" and isinstance(n[2], tuple) and n[2][0] == "payload" and n[2][2] == n[1]:
+    if n and n[0] == "map" and len(n) == 3 and isinstance(n[2], tuple) and n[2][0] == "payload" and n[2][2] == n[1]:
         return n[1]            # `opt.map(|x| x)` (after identity steps: `.map(Rc::clone)`, `.map(ToOwned::to_owned)`)
     if n and n[0] == "ifelse" and isinstance(n[1], tuple) and n[1][0] == "binop" and n[1][1] in ("Eq", "Ne"):
         # `if a == b { b } else { a }` is a (and `if a != b { a } else { b }`): where they are equal either spelling is the value
@@ -2429,6 +2471,14 @@ def nf_simplify(n):
         same, other = (n[2], n[3]) if n[1][1] == "Eq" else (n[3], n[2])
         if {_through_identity(same), _through_identity(other)} == {a_, b_} and a_ != b_:
             return other
+    if n and n[0] == "payload" and n[1] == "Some" and isinstance(n[2], tuple) and n[2][0] == "map" and len(n[2]) == 3:
+        return n[2][2]         # what `opt.map(f)` holds is f of what `opt` holds (the body is written over that payload already)
+    if n and n[0] == "payload" and n[1] == "Some" and isinstance(n[2], tuple) and n[2][0] == "ifelse":
+        is_none_ = lambda v: isinstance(v, tuple) and ((v[0] == "const" and str(v[1]).rsplit("::", 1)[-1] == "None") or v == ("lit", None))
+        if is_none_(n[2][2]) and not is_none_(n[2][3]):
+            return nf_simplify(("payload", "Some", n[2][3]))      # where `if c { None } else { opt }` is Some it is `opt`
+        if is_none_(n[2][3]) and not is_none_(n[2][2]):
+            return nf_simplify(("payload", "Some", n[2][2]))
     if n and n[0] == "payload" and n[1] == "Some" and isinstance(n[2], tuple) and n[2][0] == "call" and n[2][1] == "Option::filter" and len(n[2][2]) == 2:
         return nf_simplify(("payload", "Some", n[2][2][0]))      # what `opt.filter(p)` holds, where it holds something, is what `opt` holds
     if n and n[0] == "payload" and n[1] == "Some" and isinstance(n[2], tuple) and n[2][0] == "ifelse":
@@ -2436,6 +2486,104 @@ def nf_simplify(n):
         if ov is not None and ov[0] is not True:
             return ov[1]       # `cond.then(|| x)` / `if cond { Some(x) } else { None }`: where it is Some, it holds x
     return n
+
+
+def with_literal_consts(F, nb):
+    """a copy of a normalised body in which every use of a named constant of the crate whose value is one literal is that literal
+    (for interpreters of the syntax tree that know literals only)"""
+    import copy as _copy
+    cache = {}
+
+    def lit_node(path):
+        if path not in cache:
+            cache[path] = None
+            b = F.lib.body(path) or (F.lib.body(path[len("zeep_lib::"):]) if path.startswith("zeep_lib::") else None)
+            if b is not None and b.get("hir") is not None and str(b.get("kind", "")).startswith("Const"):
+                try:
+                    v = H.strip(H.norm_body(b)["value"])
+                except Unrecognised:
+                    v = {}
+                while v.get("k") == "Block" and not v["b"]["stmts"] and v["b"].get("tail"):
+                    v = H.strip(v["b"]["tail"])
+                if v.get("k") == "Lit" and "v" in v:
+                    cache[path] = v
+        return cache[path]
+
+    def walk(n):
+        if isinstance(n, list):
+            return [walk(x) for x in n]
+        if not isinstance(n, dict):
+            return n
+        if n.get("k") == "Path" and n.get("res") == "def" and str(n.get("dk", "")).startswith(("Const", "AssocConst")):
+            ln = lit_node(n.get("path") or "")
+            if ln is not None:
+                out = dict(ln)
+                for k_ in ("hid", "sp", "ty"):
+                    if k_ in n:
+                        out[k_] = n[k_]
+                return out
+        return {k_: walk(v_) for k_, v_ in n.items()}
+    return walk(nb)
+
+
+def returned_values(F, fn):
+    """[(site, normal form)] of what a function returns: every `return e` and the value it ends with (None for a value that is not
+    an expression read here, e.g. a `loop` that is left by `return` only)"""
+    W = EnvWalker(F)
+    b = F.lib.body(fn)
+    nb = H.norm_body(b)
+    out = []
+    top = H.strip(nb["value"])
+    tail = H.strip(top["b"]["tail"]) if top.get("k") == "Block" and top["b"].get("tail") is not None else (top if top.get("k") != "Block" else None)
+    seen = set()
+
+    def cb(e, env, ctx):
+        if e.get("k") == "Ret" and e.get("e") is not None and id(e) not in seen:
+            seen.add(id(e))
+            out.append((H.sp(e), W.NF.nf(e["e"], env)))
+        if tail is not None and e is tail and tail.get("k") not in ("Loop", "Ret", "While") and id(e) not in seen:
+            seen.add(id(e))
+            out.append((H.sp(e), W.NF.nf(e, env)))
+    W.walk_fn(fn, cb)
+    if tail is not None and id(tail) not in seen and tail.get("k") not in ("Loop", "Ret", "While"):
+        out.append((H.sp(tail), None))
+    return out
+
+
+def value_alternatives(v, depth=0):
+    """the values a normal form can stand for, one per way it can be chosen: the branches of `if` / `match`, what `opt.unwrap_or(d)`
+    can be (the payload of `opt`, or `d`), the elements a `find` can return (those of the sequence it searches)"""
+    if not isinstance(v, tuple) or depth > 8:
+        return [v]
+    if v[0] == "ifelse":
+        return value_alternatives(v[2], depth + 1) + value_alternatives(v[3], depth + 1)
+    if v[0] == "match":
+        return [x for _p, arm in v[2] for x in value_alternatives(arm, depth + 1)]
+    if v[0] == "call" and str(v[1]).rsplit("::", 1)[-1] in ("unwrap_or", "unwrap_or_else", "unwrap_or_default") and v[2]:
+        rest = value_alternatives(v[2][1], depth + 1) if len(v[2]) > 1 else []
+        return value_alternatives(("payload", "Some", v[2][0]), depth + 1) + rest
+    if v[0] == "payload" and isinstance(v[2], tuple) and v[2][0] == "call" and v[2][1] in ("iter::find", "iter::find_map") and len(v[2][2]) == 2:
+        out = []
+        for it in _list_items(v[2][2][0]):
+            out += value_alternatives(it[1] if it[0] == "item" else it[2], depth + 1)
+        return out
+    if v[0] == "call" and len(v[2]) == 1 and str(v[1]).rsplit("::", 1)[-1] in ("clone", "to_string", "to_owned", "into_owned", "into", "Owned", "Borrowed", "as_str", "as_ref", "deref"):
+        return value_alternatives(v[2][0], depth + 1)
+    return [v]
+
+
+def ctx_says_present(ctx, needle):
+    """does the context say that the optional value whose normal form mentions `needle` (e.g. "'ref'") is present — `if let Some(x) =
+    v`, `v.is_some()`, the `Some` arm of a match — rather than absent (`None` arm, `is_none()`, the else branch)?"""
+    for c in ctx:
+        if c[0] != "alt" or needle not in nf_str(c[1]):
+            continue
+        k, v = decision(c[1], c[2])
+        if k[0] == "some" and v:
+            return True
+        if k[0] == "cond" and v and not (isinstance(k[1], tuple) and k[1][0] == "islet" and str(k[1][1]).rsplit("::", 1)[-1] == "None"):
+            return True
+    return False
 
 
 def _subst_ctx(ctx, mapping):
@@ -2583,16 +2731,17 @@ def field_summaries(F, struct_suffix, through_helpers=True):
                     item = (site, tuple(cctx) + _subst_ctx(ctx, mapping),
                             {k: nf_simplify(nf_subst(v, mapping)) for k, v in fields.items()},
                             nf_simplify(nf_subst(base, mapping)) if isinstance(base, tuple) else base)
-                    key = (site, nf_str(("tuple", tuple(c[1] for c in item[1]))))
-                    if key not in {(x[0], nf_str(("tuple", tuple(c[1] for c in x[1])))) for x in total.get(caller, [])}:
+                    ckey = lambda cx: nf_str(("tuple", tuple(c[1] for c in cx))) + "|" + "".join("TF"[0 if c[2] else 1] if c[0] == "alt" else "*" for c in cx)
+                    key = (site, ckey(item[1]))
+                    if key not in {(x[0], ckey(x[1])) for x in total.get(caller, [])}:
                         total.setdefault(caller, []).append(item)
                         changed = True
         if not changed:
             break
     out = []
     for fn, xs in total.items():
-        if is_helper(fn) and fn in own and all(c in total for c in callers.get(fn, ())):
-            continue   # reported through its callers
+        if is_helper(fn) and all(c in total for c in callers.get(fn, ())):
+            continue   # reported through its callers (also a helper that itself only passes the construction on to another helper)
         for (site, ctx, fields, base) in xs:
             out.append((fn, site, ctx, fields, base))
     return out
@@ -2661,7 +2810,9 @@ class CallExpander:
         self.NF = NF(F)
         self.cache = {}
         self.general_matches = general_matches    # also take in helpers that dispatch with a general `match` (for evaluation)
-        self.keep = set()                         # paths of functions that stay calls (what a rule wants to find / bind)
+        # paths of functions that stay calls (what a rule wants to find / bind); the naming functions are named by the rules as steps
+        # of a chain, whatever their bodies look like (a `match`, a table that is searched)
+        self.keep = {b["path"] for b in F.lib.bodies if not b.get("closure") and b["path"].rsplit("::", 1)[-1] in ("rename_keywords", "as_identifier")}
 
     def const_text(self, path):
         for c in self.F.lib.items.get("consts", []):
@@ -2861,9 +3012,18 @@ class CallExpander:
         env = Env()
         names = []
         for p in nb["params"]:
-            for i, name in H.pat_bindings(p):
+            bs = list(H.pat_bindings(p))
+            for i, name in bs:
                 env.m[i] = ("param", name)
-                names.append(name)
+            pp = H.strip(p) if isinstance(p, dict) else p
+            while isinstance(pp, dict) and pp.get("k") in ("Ref", "Deref", "Box"):
+                pp = pp["pat"]
+            if isinstance(pp, dict) and pp.get("k") == "Tuple" and all(q.get("k") == "Binding" and not q.get("sub") for q in pp["pats"]):
+                names.append(tuple(q["name"] for q in pp["pats"]))      # `(a, b): (&str, &str)`: one positional parameter, two names
+            elif len(bs) == 1:
+                names.append(bs[0][1])
+            else:
+                names.append(None if not bs else tuple(n for _i, n in bs))
         # only straight-line bodies (no loops / early returns)
         top = H.strip(nb["value"])
         folded = set()
@@ -2885,7 +3045,7 @@ class CallExpander:
                 return None
             if x.get("k") == "Match" and not self.general_matches and option_match([pat_label(a["pat"]) for a in x.get("arms", [])], x.get("arms", [])) is None \
                     and not _bool_patterns(x.get("arms", [])) and not _literal_match(x.get("arms", [])) and not _matches_macro(x.get("arms", [])) \
-                    and not _two_way_split(x.get("arms", [])) and not _binding_arms(x.get("arms", [])):
+                    and not _two_way_split(x.get("arms", [])) and not _binding_arms(x.get("arms", [])) and not _guarded_or_else(x.get("arms", [])):
                 return None  # only matches that read as if/else (option, tuple of booleans, one variant against the rest); tables and variant dispatch stay opaque calls
         v = self.NF.nf(nb["value"], env)
         if any(r[0] in ("unknown", "local") for r in nf_roots(v)):
@@ -2906,7 +3066,14 @@ class CallExpander:
                 return ("call", n[1], args) + tuple(n[3:])   # explicit type arguments: what it yields depends on them; kept as a call
             s = self.summary(n[1]) if n[1] not in self.keep else None
             if s is not None and len(s[0]) == len(args):
-                return self.expand(nf_subst(s[1], dict(zip(s[0], args))), depth + 1)
+                mapping = {}
+                for nm, a in zip(s[0], args):
+                    if isinstance(nm, tuple):
+                        for j, nj in enumerate(nm):      # a tuple pattern as parameter: its names are the components of the argument
+                            mapping[nj] = nf_simplify(project(a, j, len(nm))) if isinstance(a, tuple) else ("unknown", "tuple parameter")
+                    elif nm is not None:
+                        mapping[nm] = a
+                return self.expand(nf_subst(s[1], mapping), depth + 1)
             return ("call", n[1], args)
         if n[0] == "apply":
             f = self.expand(n[1], depth)
@@ -2941,6 +3108,8 @@ def decision(cond, branch):
         ov = _opt_view(c[2])
         if ov is not None and ov[0] is not True:
             return decision(ov[0], branch)      # `if let Some(x) = cond.then(..)` is `if cond`
+    if isinstance(c, tuple) and c[0] == "islet" and isinstance(c[2], tuple) and c[2][0] == "map" and c[1].rsplit("::", 1)[-1].startswith(("Some(", "None")):
+        return decision(("islet", c[1], c[2][1]), branch)      # `opt.map(f)` is Some exactly when `opt` is
     if isinstance(c, tuple) and c[0] == "islet":
         lab = c[1].rsplit("::", 1)[-1]
         if lab.startswith("Some("):
@@ -2956,7 +3125,13 @@ def ctx_feasible(ctx):
     """False when two branch conditions of the context contradict each other (same decision, opposite outcome), or a decision
     about a literal None / Some(..) goes the impossible way."""
     seen = {}
+    flat = []
     for c in ctx:
+        if c[0] == "alt" and c[2] is True:
+            flat += list(_conjuncts(c[1]))      # `opt.filter(p)` is Some: `opt` is Some and p holds
+        else:
+            flat.append(c)
+    for c in flat:
         if c[0] != "alt":
             continue
         k, v = decision(c[1], c[2])
